@@ -109,6 +109,11 @@ def gen_spec(rng, max_states=8) -> dict:
                     shocks.append([s, _r(rng, -1.0, 1.0)])
             eqs.append({"terms": [[j, sh, c] for (j, sh), c in sorted(terms.items())], "const": const,
                         "shocks": shocks, "nl": []})
+        has_lead = any(sh > 0 for e in eqs for (_j, sh, _c) in e["terms"])
+        if not has_lead and rng.random() < 0.55:
+            i = rng.randrange(n)
+            ld = rng.choice([1, 1, 1, 2, 2, 3])
+            eqs[i]["terms"] = sorted(eqs[i]["terms"] + [[rng.randrange(n), ld, _r(rng, -0.5, 0.5)]])
         if nonlinear:
             lev = [j for j in range(n) if not logs[j]]
             if len(lev) >= 1:
